@@ -145,7 +145,18 @@ EXACT = {
     "CatLinearOperator": ({"to_dense", "inv_quad_logdet"}, set()),
     "InterpolatedLinearOperator": ({"zero_mean_mvn_samples"}, {"sample"}),
     "MatmulLinearOperator": ({"to_dense"}, set()),
+    # overrides the cached protocol methods themselves (transcribed: Model.v EigKron)
+    "KroneckerProductLinearOperator": ({"_cholesky", "_svd", "_symeig", "diagonalization", "inv_quad_logdet",
+                                        "root_decomposition", "root_inv_decomposition"}, set()),
 }
+# how the public cached methods must be decorated for the transcription to apply: (cached?, ignore_args?, name)
+BASE_DECOR = {"root_decomposition": (True, False, "root_decomposition"),
+              "root_inv_decomposition": (True, False, "root_inv_decomposition"),
+              "diagonalization": (True, False, "diagonalization"), "_svd": (True, False, "svd")}
+CLASS_DECOR = {"KroneckerProductLinearOperator": {"diagonalization": (False, False, None)}}
+# cache entries that carry no claim about the matrix and are written by plain attribute access (`.shape`), also by the
+# harness itself: left out of the key lists on both sides
+IGNORED_KEYS = {"size"}
 # objects that only occur as children: only their to_dense is modelled, they are never queried
 CHILD_ONLY = {"DiagLinearOperator", "ConstantDiagLinearOperator", "IdentityLinearOperator"}
 
@@ -169,7 +180,7 @@ def profile_of(op, ids):
     cls = type(op)
     name = cls.__name__
     kid_ids = [ids[id(k)] for k in children(op)]
-    p = {"cls": name, "td_name": None, "td_kids": [], "chol_ignore": False, "eig": None, "cm_root": None,
+    p = {"cls": name, "td_name": None, "td_kids": [], "chol_ignore": False, "eig": None, "kron": None, "cm_root": None,
          "precond": False, "queries_off": set(), "child_only": False,
          "sum": isinstance(op, O.SumLinearOperator), "iqld_to": name == "CatLinearOperator"}
     c, ign, nm, w = cached_info(cls.to_dense)
@@ -202,7 +213,13 @@ def profile_of(op, ids):
     cc, cign, cnm, cw = cached_info(cls._cholesky)
     if not cc or cnm != "cholesky" or cign:
         return None
+    for meth, want in BASE_DECOR.items():
+        want = CLASS_DECOR.get(name, {}).get(meth, want)
+        if cached_info(getattr(cls, meth))[:3] != want:
+            return None
     p["queries_off"] = set(off)
+    if name == "KroneckerProductLinearOperator":
+        p["kron"] = [ids[id(k)] for k in op.linear_ops]
     if name == "AddedDiagLinearOperator":
         p["precond"] = True
         if isinstance(op._diag_tensor, O.ConstantDiagLinearOperator):
@@ -237,6 +254,11 @@ def conv_name(x):
     if isinstance(x, str):
         return ["str", x]
     return ["fun", getattr(x, "__qualname__", repr(x))]
+
+
+def ignored_key(k):
+    nm = k[0] if isinstance(k, tuple) and len(k) == 3 and isinstance(k[2], bytes) else k
+    return isinstance(nm, str) and nm in IGNORED_KEYS
 
 
 def conv_key(k, tensors):
@@ -567,7 +589,7 @@ class World:
         out = []
         for op in self.objs:
             d = getattr(op, "_memoize_cache", None) or {}
-            out.append([conv_key(k, self.tensors) for k in d.keys()])
+            out.append([conv_key(k, self.tensors) for k in d.keys() if not ignored_key(k)])
         return out
 
     def bad_entries(self, only=None, tol=1e-6):
@@ -578,7 +600,7 @@ class World:
             if self.dense[i] is None:
                 continue
             d = getattr(op, "_memoize_cache", None) or {}
-            for pos, (k, v) in enumerate(d.items()):
+            for pos, (k, v) in enumerate((k_, v_) for k_, v_ in d.items() if not ignored_key(k_)):
                 memo_key = (i, k if not isinstance(k, tuple) else (id(k[0]) if not isinstance(k[0], str) else k[0], k[2]), id(v))
                 hit = self._entry_memo.get(memo_key)
                 if hit is None:
